@@ -78,6 +78,11 @@ func (t *TaskNumMetric) Delete(taskID string, state meta.TaskState) {
 		return
 	}
 	delete(stateMap, taskID)
+	// a deleted task is in no state: the state handed in can be stale when a state update (an internal pause)
+	// slipped in between the read of the task record and its deletion
+	delete(t.initialTaskMap, taskID)
+	delete(t.runningTaskMap, taskID)
+	delete(t.pauseTaskMap, taskID)
 }
 
 func (t *TaskNumMetric) Add(taskID string, state meta.TaskState) {
